@@ -78,8 +78,69 @@ def tiny_cases():
             yield dict(kind="game", game=g, prune=prune)
 
 
+def medium_phase(tier):
+    from harness import medium
+    def gen():
+        for c in medium.medium_cases(18 if tier == "quick" else 300, base_seed=2):
+            for prune in (True, False):
+                yield dict(kind="medium", seed=c["seed"], n_inner=c["n_inner"], prune=prune)
+    return gen
+
+
+def check_medium(case, v):
+    from harness import medium
+    game = medium.medium_game(case["seed"], case["n_inner"], reward_pool=(0, 0, 1, 2, 5, 0.5, 3.25))
+    prune = case["prune"]
+    n = len(game["players"])
+    v.key = case
+    v.cls("medium", f"medium_states<={64 if n <= 64 else 128 if n <= 128 else 320}")
+    o, info = medium.solve_medium(game, prune)
+    if o is None:
+        v.inconclusive = info
+        return v
+    if o.kind == "nosol":
+        v.cls("no_solution")
+        return v
+    if o.kind in ("budget", "skipped"):
+        v.inconclusive = "sweep budget / T_c limit (reported by C06)"
+        return v
+    lab = f"medium game (seed={case['seed']}, {n} states) solve(prune={prune})"
+    if o.kind != "ok":
+        v.fail("solve-raises", f"{lab}: {o.brief()}", sig=o.kind)
+        return v
+    final, rs, rew, prob = o.result[0], o.result[1], o.result[2], o.result[3]
+    cg = exact.conditioned_game(game, rs, prob, prune)
+    ref = medium.reward_values(cg)
+    Tc = medium.float_T(cg)
+    if ref is None or Tc is None:
+        v.inconclusive = "reference iteration did not settle"
+        return v
+    scope = exact.forward_reachable(cg, 0) if prune else set(range(n))
+    removed = sum(len(a) - len(b) for a, b in zip(game["transition_list"], cg["transition_list"]))
+    if removed:
+        v.cls("removed>=1")
+    v.nontrivial = True
+    for s in sorted(scope):
+        allowed = 1e-6 * (Tc * 1.01 + 2) + 1e-9 * (1 + abs(ref[s]))
+        if abs(rew[s] - ref[s]) > allowed:
+            v.fail("reward-differs-from-conditioned-value", f"{lab}: state {s} ({game['players'][s]}) reports {rew[s]!r}, "
+                                                            f"reference value of the conditioned game {ref[s]!r}; allowed "
+                                                            f"{allowed:.3g} (T^_c={Tc:.3g})", sig="medium")
+            break
+    return v
+
+
+def slow_cases():
+    for g in games.slow_choice_games():
+        for prune in (True, False):
+            yield dict(kind="game", game=g, prune=prune)
+
+
 def phases(tier):
     return [
+        Phase("slow-rewarded-loops", enum=slow_cases, note="values that need 10^3..10^5 sweeps"),
+        Phase("medium-size-games", enum=medium_phase(tier),
+              note="stopping games of 20-300 states; reference = own Gauss-Seidel to 1e-12 on the rebuilt conditioned game"),
         Phase("tiny-positive-reach-values", enum=tiny_cases,
               note="states worth 1e-9..1e-6: positive, hence not dead, must survive conditioning"),
         Phase("repository-examples", enum=example_cases, note="inputs/*.py example games, consistency + exact if stopping"),
@@ -90,6 +151,8 @@ def phases(tier):
 
 
 def sample_view(case):
+    if case["kind"] == "medium":
+        return case
     if case["kind"] == "example":
         return dict(kind="example", file=case["file"], name=case["name"], prune=case["prune"],
                     n_states=len(case["game"]["players"]))
@@ -118,6 +181,8 @@ def check_case(case):
     v = Verdict()
     prune = case["prune"]
     v.cls("prune" if prune else "no_prune")
+    if case["kind"] == "medium":
+        return check_medium(case, v)
     if case["kind"] == "board":
         gms = boards.games_from_board(case["board"])
         game = gms["game_" + case["variant"]]
@@ -164,7 +229,7 @@ def check_case(case):
                 v.inconclusive = "example does not solve: " + o.kind
             return v
     try:
-        if facts.T > T_MAX:
+        if facts.too_slow:
             v.inconclusive = "T>300"
             return v
     except OracleError as e:
